@@ -331,6 +331,19 @@ def run_case(col, r, idx):
         if differs:
             if not expect_unequal(col, a, b, f'child:{op.kind}', f'document after {op.desc}', w2):
                 return
+        if not _against_reparse(col, P, b, acl, f'after {op.desc}', w2):
+            return
+    # a token that moves to another slot of the same model without moving in the text: payee and narration are adjacent optional
+    # strings, and a lone string is the narration for the parser
+    b = P.parse(text, models.File, auto_claim_comments=acl)
+    txns = [(p, m) for p, m in by_path(b).items() if isinstance(m, models.Transaction) and m.raw_string1 is not None and m.raw_string2 is not None]
+    if txns:
+        p, m = r.choice(txns)
+        m.raw_string2 = None
+        col.count('slot_perturbations')
+        col.nontrivial(text, 'slot', p)
+        if not _against_reparse(col, P, b, acl, f'after {p}.raw_string2 = None (the remaining string stays the payee)', dict(wit, path=p)):
+            return
     # (3) comment re-attribution
     b = P.parse(text, models.File, auto_claim_comments=True)
     a_claimed = a if acl else P.parse(text, models.File, auto_claim_comments=True)
@@ -400,6 +413,23 @@ def run_case(col, r, idx):
     if idx % 211 == 0:
         col.sample({'text': text, 'acl': acl, 'sub_models_compared': len(pa)})
 
+
+
+def _against_reparse(col, P, b, acl, what, wit):
+    """b against a fresh parse of b's own printed text: same type and same text by construction, so equality must follow the
+    structure alone. False = a violation was reported."""
+    try:
+        printed = common.pr(b)
+        c = P.parse(printed, models.File, auto_claim_comments=acl)
+        same = common.pr(c) == printed and full_digest(c) == full_digest(b)
+    except Exception:
+        return True
+    col.count('edited_vs_reparse_pairs')
+    if same:
+        col.count('edited_vs_reparse_same_structure')
+        return True         # (zero-width layout may still differ: the known finding's subject, judged by the same-text-same-tree pairs)
+    col.count('edited_vs_reparse_other_structure')
+    return expect_unequal(col, b, c, 'same-text-other-structure', f'document {what} and a fresh parse of its printed text', dict(wit, printed=printed))
 
 
 def _pinned_zero_width(col):
